@@ -103,8 +103,20 @@ def run(tier):
                 name, case, b["line"], b["clause"], b.get("ev", "")[:400], "\n    ".join(x[:300] for x in ctx)),
                 {"batch": name, "steps": cases[case] if 0 <= case < len(cases) else None, "keys": [k.hex() for k in keys]})
         log("[C17] batch %-14s %4d cases, %s conforming steps, %d rejected (%.1fs)" % (name, len(cases), nok, len(bad), r.wall))
+    # handle life cycle: every call sequence of depth 5 over {open, close, put, get, del} on ONE handle (Lifecycle.tla): calls before Open
+    # / after Close / double Open / double Close are rejected with the documented error and have no effect
+    seqs, _ = judge.gen_behaviours("Lifecycle.tla", "MC_Lifecycle.cfg", outcome=o, what="all call sequences of depth 5 on one handle")
+    lwork = common.scratch("C17-lifecycle")
+    ltrace = os.path.join(lwork, "trace.ndjson")
+    judge.run_driver(binary, "lifecycle", {"dir": lwork, "seqs": [[c["op"] for c in q] for q in seqs]}, ltrace)
+    lnok, lbad, lr = judge.judge_trace("LifecycleTrace.tla", "LifecycleTrace.cfg", ltrace, o, "life cycle judge")
+    for b in lbad[:5]:
+        o.report("lifecycle/%s" % b["clause"], "handle life cycle: %s\n  expected %s" % (b.get("ev", "")[:500], b.get("expected", "")[:300]), {"line": b["line"]})
+    log("[C17] life cycle: %d call sequences on one handle, %s conform, %d rejected" % (len(seqs), lnok, len(lbad)))
+    o.traces += len(seqs)
+    ncases += len(seqs)
     o.evaluations = ncases
-    o.nontrivial = rejected
+    o.nontrivial = rejected + len(seqs)
     o.rule = ("cases = distinct TLC-simulated programs of SimpleDBApi.tla (Put with key/value classes nil/empty/ok through both flavours, "
               "Delete, Flush, Reopen, CrashRecover), replayed with 4 key concretizations; non-trivial = contains at least one call the "
               "contract rejects; distinct by program")
